@@ -27,7 +27,10 @@ contract("qubovert._pubo:PUBO._reduce_degree", props=["C01"],
          instances=[{"self": "model:" + c, "D": "model:" + d, "deg": g, "lam": l, "pairs": "none"}
                     for c in ("PUBO", "PCBO")
                     for d, g in (("PUBO", "const:2"), ("PUBO", "none"), ("PUBO", "int"))
-                    for l in ("none", "real")],
+                    for l in ("none", "real")] +
+                   # with pair hints: an arbitrary set of pairs (membership uninterpreted)
+                   [{"self": "model:PUBO", "D": "model:PUBO", "deg": "const:2", "lam": "none", "pairs": "keyset"},
+                    {"self": "model:PCBO", "D": "model:PUBO", "deg": "int", "lam": "real", "pairs": "keyset"}],
          requires=["wf(self)", "wf(D)", "distinct(self, D)", "rlinked(self._mapping)",
                    "keys_within(self, lset(self._mapping))", "mapvals_ok(self._mapping)",
                    "lam is None or lam > 0",
